@@ -62,6 +62,20 @@ class FakeClock:
         self.now += max(0.0, float(dt))
 
 
+class Unavailable(Exception):
+    """The function under test no longer has the signature this driver knows (e.g. it gained a parameter).  The
+    history cannot be driven directly; the property's pipeline part (which uses the repo's own call sites) still runs."""
+
+
+def _call(fn, *args):
+    try:
+        return fn(*args)
+    except TypeError as e:
+        if e.__traceback__.tb_next is None:        # raised while binding the arguments, not inside fn
+            raise Unavailable(f'{getattr(fn, "__name__", fn)}: {e}')
+        raise
+
+
 class _Pbar:
     def set_description(self, *a, **k):
         pass
@@ -87,7 +101,10 @@ def _sampler_history(a):
             random.Random(op['perm']).shuffle(cand)
         cap = op['cap']
         ns = types.SimpleNamespace(combination_number_upper_bound=cap)
-        out = core_ranking.prior_combinations_sample(list(cand), ns)
+        try:
+            out = _call(core_ranking.prior_combinations_sample, list(cand), ns)
+        except Unavailable as e:
+            return {'problems': [], 'unavailable': str(e), 'binding_steps': 0, 'states': [], 'steps': 0}
         out = [tuple(x) for x in out]
         for p in model.check_call(cand, cap, out):
             problems.append({'step': step, 'problem': p, 'cap': cap, 'size': len(cand)})
@@ -145,9 +162,12 @@ def _stats_history(a):
             clock.advance(a['ticks'][bi % len(a['ticks'])])
         seen += batch
         df = pd.DataFrame(batch, columns=header)
-        cov = core_ranking.compute_coverage(df, args)
-        core_ranking.compute_cardinalities(df, _Pbar(), bound)
-        core_ranking.compute_value_counts(df, args)
+        try:
+            cov = _call(core_ranking.compute_coverage, df, args)
+            _call(core_ranking.compute_cardinalities, df, _Pbar(), bound)
+            _call(core_ranking.compute_value_counts, df, args)
+        except Unavailable as e:
+            return {'problems': [], 'unavailable': str(e), 'final': {}, 'crossing_batches': 0, 'batches': 0}
         exp_cov = stats.coverage(batch, len(header), missing)
         for j, col in enumerate(header):
             got = cov[col] if col in cov else None
